@@ -155,7 +155,16 @@ def run(ctx: Ctx) -> None:
         ctx.obligation("translate sort_errors", False, str(e))
         gen = None
     if gen is not None:
-        b = coq.compile_props(ctx, {"GenSortKey": gen}, ["GenSortKey", "C11"])
+        gens, order = {"GenSortKey": gen}, ["GenSortKey", "C11"]
+        # the per-path ignore test iterates a set: translated from source and proved independent of the iteration order (Props/C12/C12Amend.v)
+        try:
+            from ..translate.amend import translate as translate_amend
+            gens["GenAmend"] = translate_amend(REPO)
+            gens["C12Amend"] = (coq.PROPS / "C12" / "C12Amend.v").read_text()
+            order += ["GenAmend", "C12Amend"]
+        except Exception as e:  # noqa: BLE001
+            ctx.obligation("translate is_ignored_via_amend (iteration over the set settings.ignore)", False, f"{type(e).__name__}: {e}")
+        b = coq.compile_props(ctx, gens, order)
         coq.record_build(ctx, b)
     rng = ctx.rng
     td = tempfile.mkdtemp(prefix="c11-")
@@ -219,7 +228,8 @@ def run(ctx: Ctx) -> None:
         hash_seeds(ctx, td, files)
     finally:
         shutil.rmtree(td, ignore_errors=True)
-    ctx.resolve_broken({"process_state_inventory": "history:", "sort_perm_invariant": "file-order-matters", "partition_invariant": "grouping-matters",
+    ctx.resolve_broken({"translate is_ignored_via_amend (iteration over the set settings.ignore)": "history:", "amend_order_irrelevant": "history:", "amend_translated_is_the_model": "history:",
+                        "process_state_inventory": "history:", "sort_perm_invariant": "file-order-matters", "partition_invariant": "grouping-matters",
                         "key_order_documented": "not-sorted", "sorted_output": "not-sorted"}, b.first_error if b else "")
 
 
